@@ -921,6 +921,21 @@ func registerReflect(p *Program) {
 
 // rindex checks a reflect index.
 func (m *Machine) rindex(idx Value, n int) int {
+	if si, ok := idx.(SymInt); ok {
+		t := m.simp(si.T)
+		if _, isConst := t.Int64(); !isConst {
+			var conds []*smt.Term
+			for i := 0; i < n; i++ {
+				conds = append(conds, m.Ctx.Eq(t, m.Ctx.Int(int64(i))))
+			}
+			conds = append(conds, m.Ctx.Or(m.Ctx.Lt(t, m.Ctx.Int(0)), m.Ctx.Le(m.Ctx.Int(int64(n)), t)))
+			c := m.Choose(conds, "reflect.Index")
+			if c == n {
+				panic(targetPanic{v: "reflect: slice index out of range", what: "reflect"})
+			}
+			return c
+		}
+	}
 	i := asInt64(m.concretize(idx, "reflect.Index"))
 	if i < 0 || i >= int64(n) {
 		panic(targetPanic{v: "reflect: slice index out of range", what: "reflect"})
